@@ -140,6 +140,17 @@ def tensor_method(it, tv, name, args, kwargs, node):
     base = name[:-1] if inplace else name
 
     # ---------------- identity / storage
+    if name == "contiguous":
+        # self when the tensor is already dense, otherwise a dense copy: for a caller-supplied tensor (whose layout is not
+        # known) the result may or may not share storage with it
+        if tv.obj.origin == "fresh" and not tv.view:
+            return tv
+        r = it.fresh(t, shape, kind, node)
+        r.obj.valkind = tv.obj.valkind
+        r.obj.dtype_src = tv.obj
+        r.obj.may_alias.add(tv.obj)
+        r.obj.maybe_copy = True
+        return r
     if name in IDENTITY or (name == "float" and kind == "tensor") or name == "type":
         return tv  # torch returns self when no conversion is needed: may be the very same object
     if name == "clone" or name == "copy":
